@@ -122,15 +122,15 @@ theorem sorted_insertAsc (c : Nat) (l : List Nat) (h : l.Pairwise (· < ·)) : (
 
 /-! ### `put` -/
 
-theorem advance_spec (c : WfqCfg ℚ) (st st1 : WfqSt ℚ) (now : ℚ) (h : advance c st now = .ok st1) :
-    (st.active = [] ∧ st1 = resetVtime c st) ∨
-    (st.active ≠ [] ∧ (∀ k ∈ st.active, (lookup c.weights k).isSome) ∧ wSum c.weights st.active ≠ 0 ∧
+theorem advance_spec (c : WfqCfg ℚ) (st st1 : WfqSt ℚ) (now : ℚ) (total : Int) (h : advance c st now total = .ok st1) :
+    (total = 0 ∧ st1 = resetVtime c st) ∨
+    (total ≠ 0 ∧ (∀ k ∈ st.active, (lookup c.weights k).isSome) ∧ wSum c.weights st.active ≠ 0 ∧
       st1 = { st with vtime := st.vtime + (now - st.lastTime) / wSum c.weights st.active }) := by
   unfold advance at h
   split at h
   · rename_i he
     simp only [Except.ok.injEq] at h
-    exact Or.inl ⟨by simpa using he, h.symm⟩
+    exact Or.inl ⟨he, h.symm⟩
   · rename_i he
     unfold updateVtime at h
     split at h
@@ -142,7 +142,7 @@ theorem advance_spec (c : WfqCfg ℚ) (st st1 : WfqSt ℚ) (now : ℚ) (h : adva
       · cases h
       · rename_i hz
         simp only [Except.ok.injEq] at h
-        refine Or.inr ⟨by simpa using he, h2, ?_, ?_⟩
+        refine Or.inr ⟨he, h2, ?_, ?_⟩
         · rw [← h1]; intro hc; apply hz; rw [hc, zero_eq_q]; simp [Num.eqb]
         · rw [← h1]; exact h.symm
 
@@ -183,8 +183,9 @@ theorem stampOf_eq (c : WfqCfg ℚ) (f v w : ℚ) (size : Nat) :
   ring
 
 /-- an accepted `put`, step by step -/
-theorem put_spec (c : WfqCfg ℚ) (st st' : WfqSt ℚ) (now F : ℚ) (p : SPkt) (h : put c st now p = .ok (st', F)) :
-    ∃ k st1 f w, lookup c.flow2class p.flow = some k ∧ advance c st now = .ok st1 ∧ lookup st1.finish k = some f ∧
+theorem put_spec (c : WfqCfg ℚ) (st st' : WfqSt ℚ) (now : ℚ) (total : Int) (F : ℚ) (p : SPkt)
+    (h : put c st now total p = .ok (st', F)) :
+    ∃ k st1 f w, lookup c.flow2class p.flow = some k ∧ advance c st now total = .ok st1 ∧ lookup st1.finish k = some f ∧
       lookup c.weights k = some w ∧ c.rate * w ≠ 0 ∧ F = stampOf c f st1.vtime w p.size ∧ st' = commit st1 k F now := by
   unfold put at h
   split at h
@@ -208,10 +209,10 @@ theorem put_spec (c : WfqCfg ℚ) (st st' : WfqSt ℚ) (now F : ℚ) (p : SPkt) 
             refine ⟨k, st1, f, w, hk, ha, hf, hw, ?_, rfl, rfl⟩
             intro hc; apply hz; rw [hc, zero_eq_q]; simp [Num.eqb]
 
-theorem put_ok (c : WfqCfg ℚ) (st st1 : WfqSt ℚ) (now : ℚ) (p : SPkt) (k : Nat) (f w : ℚ)
-    (hk : lookup c.flow2class p.flow = some k) (ha : advance c st now = .ok st1) (hf : lookup st1.finish k = some f)
+theorem put_ok (c : WfqCfg ℚ) (st st1 : WfqSt ℚ) (now : ℚ) (total : Int) (p : SPkt) (k : Nat) (f w : ℚ)
+    (hk : lookup c.flow2class p.flow = some k) (ha : advance c st now total = .ok st1) (hf : lookup st1.finish k = some f)
     (hw : lookup c.weights k = some w) (hz : c.rate * w ≠ 0) :
-    put c st now p = .ok (commit st1 k (stampOf c f st1.vtime w p.size) now, stampOf c f st1.vtime w p.size) := by
+    put c st now total p = .ok (commit st1 k (stampOf c f st1.vtime w p.size) now, stampOf c f st1.vtime w p.size) := by
   unfold put
   simp only [hk, ha]
   unfold stampPut
